@@ -31,6 +31,30 @@ Preorder(T, b) == <<b>> \o FoldLeft(LAMBDA acc, k : acc \o Preorder(T, k), <<>>,
 Leaves(T) == {b \in InTree(T) : KidSet(T, b) = {}}
 RelDepth(T, b) == Height(b) - Height(T.anchor) + 1
 
+(***************************************************************************)
+(* The same quantities for every block of the tree at once, computed in    *)
+(* one pass over the arrival order (children always arrive after their     *)
+(* parent).  Trace validation uses these; the model-checking instances     *)
+(* check that they agree with the recursive definitions above.             *)
+(***************************************************************************)
+\* height relative to the anchor (anchor = 0)
+RelHeightMap(T) ==
+  FoldLeft(LAMBDA h, x : IF x = T.anchor THEN h ELSE [h EXCEPT ![x] = h[Par(x)] + 1],
+           [b \in InTree(T) |-> 0], T.arr)
+
+DepthMap(T) ==
+  FoldLeft(LAMBDA d, x : IF x = T.anchor THEN d
+                         ELSE [d EXCEPT ![Par(x)] = IF d[x] + 1 > @ THEN d[x] + 1 ELSE @],
+           [b \in InTree(T) |-> 1], Reverse(T.arr))
+
+\* m[b] = greatest difficulty-based depth among the children of b (0 if none);
+\* the difficulty-based depth of b is Diff(b) + m[b]
+MaxKidDDMap(T) ==
+  FoldLeft(LAMBDA m, x : IF x = T.anchor THEN m
+                         ELSE [m EXCEPT ![Par(x)] = IF Diff(x) + m[x] > @ THEN Diff(x) + m[x] ELSE @],
+           [b \in InTree(T) |-> 0], Reverse(T.arr))
+DDMap(T) == LET m == MaxKidDDMap(T) IN [b \in InTree(T) |-> Diff(b) + m[b]]
+
 \* path anchor .. tip for a block of the tree
 PathTo(T, tip) == LET c == ChainTo(tip) IN SubSeq(c, Height(T.anchor) + 1, Len(c))
 
@@ -75,7 +99,30 @@ BestRec(T, b) ==
                      /\ \A j \in 1..(i - 1) : Better(rs[i], rs[j])
        IN <<Diff(b) + rs[best][1], 1 + rs[best][2], <<b>> \o rs[best][3]>>
 
-BestChainOf(T) == BestRec(T, T.anchor)[3]
+BestChainRec(T) == BestRec(T, T.anchor)[3]
+
+\* The same mechanism in one pass (used everywhere; BestRec re-evaluates subtrees and is only
+\* practical on the small trees of the model-checking instances, which check that both agree).
+\* best[b] = [dd, len, kid]: accumulated difficulty and length of the best chain BELOW b and
+\* the child it starts with (0 if b is a leaf).  Children are visited in reverse arrival order,
+\* so >= lets an earlier child replace a later one on ties: the first child wins.
+BestMap(T) ==
+  FoldLeft(LAMBDA best, x :
+             IF x = T.anchor THEN best
+             ELSE LET p  == Par(x)
+                      cd == Diff(x) + best[x].dd
+                      cl == 1 + best[x].len
+                      b0 == best[p]
+                  IN IF cd > b0.dd \/ (cd = b0.dd /\ cl >= b0.len)
+                     THEN [best EXCEPT ![p] = [dd |-> cd, len |-> cl, kid |-> x]]
+                     ELSE best,
+           [b \in InTree(T) |-> [dd |-> 0, len |-> 0, kid |-> 0]], Reverse(T.arr))
+
+BestChainOf(T) ==
+  LET best == BestMap(T)
+      n == best[T.anchor].len + 1
+      walk[i \in 1..n] == IF i = 1 THEN T.anchor ELSE best[walk[i - 1]].kid
+  IN [i \in 1..n |-> walk[i]]
 
 (***************************************************************************)
 (* Stability rule.                                                         *)
@@ -111,7 +158,9 @@ MechChild(T, thr, net, bound) ==
   LET k == Kids(T, T.anchor) IN
   IF Len(k) = 0 THEN 0 ELSE
   LET n == Len(k)
-      dd == [i \in 1..n |-> DD(T, k[i])]
+      ddm == DDMap(T)
+      dpm == DepthMap(T)
+      dd == [i \in 1..n |-> ddm[k[i]]]
       \* rank that a stable ascending sort gives to position i
       Rank(i) == Cardinality({j \in 1..n : dd[j] < dd[i] \/ (dd[j] = dd[i] /\ j < i)}) + 1
       AtRank(r) == CHOOSE i \in 1..n : Rank(i) = r
@@ -119,8 +168,8 @@ MechChild(T, thr, net, bound) ==
       last   == k[li]
       si     == IF n >= 2 THEN AtRank(n - 1) ELSE 0
       second == IF si = 0 THEN 0 ELSE k[si]
-      ld     == Depth(T, last)
-      sd     == IF second = 0 THEN 0 ELSE Depth(T, second)
+      ld     == dpm[last]
+      sd     == IF second = 0 THEN 0 ELSE dpm[second]
       diffd  == IF sd > ld THEN 0 ELSE ld - sd                      \* saturating_sub
       escape == /\ net \in {"testnet", "regtest"}
                 /\ ld >= bound
@@ -142,11 +191,28 @@ Advance(T, child) ==
 StabilityCount(T, b) ==
   Depth(T, b) - MaxOf({Depth(T, x) : x \in {y \in InTree(T) \ {b} : Height(y) = Height(b)}})
 
+\* all stability counts at once
+StabilityMap(T) ==
+  LET dpm == DepthMap(T)
+      rh  == RelHeightMap(T)
+  IN [b \in InTree(T) |-> dpm[b] - MaxOf({dpm[y] : y \in {z \in InTree(T) \ {b} : rh[z] = rh[b]}})]
+
 \* number of leading blocks of `chain` whose stability count is >= c
-RECURSIVE CutLen(_, _, _)
 CutLen(T, chain, c) ==
+  LET sm == StabilityMap(T)
+      bad == {i \in 1..Len(chain) : sm[chain[i]] < c}
+  IN IF bad = {} THEN Len(chain) ELSE Min(bad) - 1
+
+\* the same by the recursive definitions (reference)
+RECURSIVE CutLenRef(_, _, _)
+CutLenRef(T, chain, c) ==
   IF Len(chain) = 0 THEN 0
   ELSE IF StabilityCount(T, chain[1]) < c THEN 0
-  ELSE 1 + CutLen(T, Tail(chain), c)
+  ELSE 1 + CutLenRef(T, Tail(chain), c)
+
+FastMapsAgree(T) ==
+  /\ \A b \in InTree(T) : DepthMap(T)[b] = Depth(T, b) /\ DDMap(T)[b] = DD(T, b)
+                            /\ StabilityMap(T)[b] = StabilityCount(T, b)
+                            /\ RelHeightMap(T)[b] = Height(b) - Height(T.anchor)
 
 =============================================================================
